@@ -79,6 +79,8 @@ pub unsafe extern "C" fn clock_gettime(clk: libc::clockid_t, ts: *mut libc::time
         if let Some(source) = guard.as_mut() {
             let (sec, nsec) = source(clk);
             READS.fetch_add(1, Ordering::SeqCst);
+            drop(guard);
+            crate::meter::note_clock_read();
             (*ts).tv_sec = sec;
             (*ts).tv_nsec = nsec;
             return 0;
